@@ -379,7 +379,7 @@ func TestCheck(t *testing.T) {
 	}
 	depth := 3
 	if env.Thorough() {
-		depth = 4
+		depth = 5
 	}
 	sts := states(depth)
 	var keys []string
@@ -450,7 +450,13 @@ func concurrentScenarios(thorough bool) []hx.Scenario {
 		}
 	}
 	if thorough {
-		out = append(out, hx.Scenario{Name: "3 clients", Make: concScenario([][]Op{{ops[0]}, {ops[1]}, {ops[3]}})})
+		for i := range ops {
+			for j := i; j < len(ops); j++ {
+				for k := j; k < len(ops); k++ {
+					out = append(out, hx.Scenario{Name: fmt.Sprintf("3 clients: %v || %v || %v", ops[i], ops[j], ops[k]), Make: concScenario([][]Op{{ops[i]}, {ops[j]}, {ops[k]}})})
+				}
+			}
+		}
 	}
 	return out
 }
